@@ -38,14 +38,17 @@ var c07Reqs = []c07Req{
 	{"mutation", `mutation { m1(v:1) { kind nodes(n:2) { kind } } s1(v:2) }`, nil},
 	{"invalid", `{ nope node { zzz } }`, nil},
 	{"scalars", `{ x1 x2 leafy { s i } }`, nil},
+	{"nested-single-possible", `{ nodes(n:3) { id ... on A { solo { ... on B { bOnly } } } ... on C { solo { ... on B { id kind } } } } c { solo { ... on B { u { ... on A { solo { ... on B { id } } } } } } } }`, nil},
 	// literal variants of one shape: under the normalising cache they share a plan
+	// (same text length: with Normalize on, error locations of a shared plan are
+	// those of the request that created it - recorded under C06 as F-C06-5)
 	{"lit-1", `{ echo(i:1, s:"one") a { items(n:1) { n } } }`, nil},
 	{"lit-2", `{ echo(i:2, s:"two") a { items(n:2) { n } } }`, nil},
-	{"lit-3", `{ echo(i:3, s:"three") a { items(n:3) { n } } }`, nil},
+	{"lit-3", `{ echo(i:3, s:"six") a { items(n:3) { n } } }`, nil},
 }
 
 // index of the first literal variant
-const c07LitBase = 12
+const c07LitBase = 13
 
 type C07Op struct {
 	Kind string `json:"kind"` // do | cache | plan | validate | reset
@@ -53,16 +56,20 @@ type C07Op struct {
 }
 
 type C07Client struct {
+	World   int     `json:"world,omitempty"` // which of the two same-shape schemas the client uses
 	Variant uint64  `json:"variant"`
 	Ops     []C07Op `json:"ops"`
 }
 
 type C07Scn struct {
-	Clients    []C07Client `json:"clients"`
-	MaxEntries int         `json:"max_entries"`
-	Normalize  bool        `json:"normalize"`
-	Park       []string    `json:"park"`
-	Sticky     int         `json:"stickiness"`
+	// Faults makes the same resolvers fail for every client (first failures of a
+	// field of a shared plan happening on several goroutines)
+	Faults     map[string]string `json:"faults,omitempty"`
+	Clients    []C07Client       `json:"clients"`
+	MaxEntries int               `json:"max_entries"`
+	Normalize  bool              `json:"normalize"`
+	Park       []string          `json:"park"`
+	Sticky     int               `json:"stickiness"`
 }
 
 type c07 struct{}
@@ -85,6 +92,9 @@ func (p c07) Gen(seed uint64, enum int, tier string) json.RawMessage {
 	}
 	kinds := []string{"do", "do", "cache", "cache", "plan", "plan", "validate", "reset"}
 	maxOps := 4
+	// sometimes the clients are spread over two schemas of the same shape (a
+	// rebuilt schema: other pointer) that share the cache
+	twoWorlds := r.Chance(25)
 	switch flavour := r.Intn(10); {
 	case flavour < 2:
 		// cache hammer: several keys kept warm and hit by everybody
@@ -104,11 +114,24 @@ func (p c07) Gen(seed uint64, enum int, tier string) json.RawMessage {
 	}
 	for c := 0; c < nc; c++ {
 		cl := C07Client{Variant: r.Uint64() % 7}
+		if twoWorlds {
+			cl.World = r.Intn(2)
+		}
 		for n := 1 + r.Intn(maxOps); n > 0; n-- {
 			kind := kinds[r.Intn(len(kinds))]
 			cl.Ops = append(cl.Ops, C07Op{Kind: kind, Req: work[r.Intn(len(work))]})
 		}
 		s.Clients = append(s.Clients, cl)
+	}
+	if r.Chance(30) {
+		s.Faults = map[string]string{}
+		for _, wi := range work {
+			rq := c07Reqs[wi]
+			paths := dryPaths(rq.Query, rq.Vars, s.Clients[0].Variant)
+			for k := 1 + r.Intn(2); k > 0 && len(paths) > 0; k-- {
+				s.Faults["R@"+paths[r.Intn(len(paths))]] = []string{FErr, FErr, FPanicStr, FNil}[r.Intn(4)]
+			}
+		}
 	}
 	for _, c := range c07AllPark {
 		if r.Chance(65) {
@@ -153,10 +176,26 @@ func c07Root(q string) string {
 }
 
 // c07Solo computes the response of one operation run alone on a cold schema.
-func c07Solo(op C07Op, variant uint64) string {
-	rq := c07Reqs[op.Req]
+// dryPaths returns the resolver paths of the fault-free run of a request.
+var dryPathCache = map[string][]string{}
+
+func dryPaths(query string, vars map[string]interface{}, variant uint64) []string {
+	key := fmt.Sprintf("%s/%v/%d", query, vars, variant)
+	if p, ok := dryPathCache[key]; ok {
+		return p
+	}
 	w := NewWorld("A")
-	rc := &ReqCtx{Task: "solo", W: w, Variant: variant, RootTok: Tok{T: c07Root(rq.Query)}}
+	rc := &ReqCtx{Task: "dry", W: w, Variant: variant}
+	graphql.Do(graphql.Params{Schema: w.Schema, RequestString: query, VariableValues: vars, Context: WithReq(context.Background(), rc)})
+	p := SortedKeys(rc.Seen)
+	dryPathCache[key] = p
+	return p
+}
+
+func c07Solo(op C07Op, variant uint64, world int, faults map[string]string) string {
+	rq := c07Reqs[op.Req]
+	w := NewWorld([]string{"A", "B"}[world])
+	rc := &ReqCtx{Task: "solo", W: w, Variant: variant, Faults: faults, RootTok: Tok{T: c07Root(rq.Query)}}
 	ctx := WithReq(context.Background(), rc)
 	switch op.Kind {
 	case "validate":
@@ -182,7 +221,7 @@ func (c07) Run(t TestingT, scn json.RawMessage, tape *Tape) *Outcome {
 	solo := map[string]string{}
 	for ci, cl := range sc.Clients {
 		for oi, op := range cl.Ops {
-			solo[fmt.Sprintf("c%d.%d", ci+1, oi)] = c07Solo(op, cl.Variant)
+			solo[fmt.Sprintf("c%d.%d", ci+1, oi)] = c07Solo(op, cl.Variant, cl.World, sc.Faults)
 		}
 	}
 	s := NewSim(tape)
@@ -230,16 +269,17 @@ func (c07) Run(t TestingT, scn json.RawMessage, tape *Tape) *Outcome {
 		}
 	}
 	pan := Bubble(t, s, func() {
-		w := NewWorld("A") // cold: nothing lazily initialised by a request yet
+		worlds := []*World{NewWorld("A"), NewWorld("B")} // cold: nothing lazily initialised by a request yet
 		cache = graphql.NewPlanCache(graphql.PlanCacheOptions{MaxEntries: sc.MaxEntries, Normalize: sc.Normalize})
-		// prepared plans shared by all clients (planned, not yet executed)
-		plans := map[int]*graphql.Plan{}
+		// prepared plans shared by all clients of a schema (planned, not yet executed)
+		plans := map[[2]int]*graphql.Plan{}
 		for _, cl := range sc.Clients {
+			w := worlds[cl.World]
 			for _, op := range cl.Ops {
 				if op.Kind != "plan" {
 					continue
 				}
-				if _, ok := plans[op.Req]; ok {
+				if _, ok := plans[[2]int{cl.World, op.Req}]; ok {
 					continue
 				}
 				rq := c07Reqs[op.Req]
@@ -247,12 +287,13 @@ func (c07) Run(t TestingT, scn json.RawMessage, tape *Tape) *Outcome {
 				if doc, err := parseDoc(rq.Query); err == nil && graphql.ValidateDocument(&w.Schema, doc, nil).IsValid {
 					pl, _ = graphql.PlanQuery(&w.Schema, doc, "")
 				}
-				plans[op.Req] = pl
+				plans[[2]int{cl.World, op.Req}] = pl
 			}
 		}
 		for ci := range sc.Clients {
 			cl := sc.Clients[ci]
 			name := fmt.Sprintf("c%d", ci+1)
+			w := worlds[cl.World]
 			s.Spawn(name, func(tc *TaskCtx) {
 				defer func() {
 					if r := recover(); r != nil {
@@ -262,7 +303,7 @@ func (c07) Run(t TestingT, scn json.RawMessage, tape *Tape) *Outcome {
 				for oi, op := range cl.Ops {
 					rq := c07Reqs[op.Req]
 					s.Gate(name, "client:op", fmt.Sprintf("%d %s %s", oi, op.Kind, rq.Name))
-					rc := &ReqCtx{Task: name, Req: oi, W: w, Variant: cl.Variant, Gates: true, RootTok: Tok{T: c07Root(rq.Query)}}
+					rc := &ReqCtx{Task: name, Req: oi, W: w, Variant: cl.Variant, Faults: sc.Faults, Gates: true, RootTok: Tok{T: c07Root(rq.Query)}}
 					ctx := WithReq(WithTask(context.Background(), name), rc)
 					key := fmt.Sprintf("%s.%d", name, oi)
 					switch op.Kind {
@@ -276,7 +317,7 @@ func (c07) Run(t TestingT, scn json.RawMessage, tape *Tape) *Outcome {
 							tc.Out[key] = MarshalResult(graphql.ExecutePlan(pr.Plan, graphql.ExecuteParams{Schema: w.Schema, Args: mergeArgs(rq.Vars, pr.SynthArgs), Context: ctx}))
 						}
 					case "plan":
-						if pl := plans[op.Req]; pl != nil {
+						if pl := plans[[2]int{cl.World, op.Req}]; pl != nil {
 							tc.Out[key] = MarshalResult(graphql.ExecutePlan(pl, graphql.ExecuteParams{Schema: w.Schema, Args: rq.Vars, Context: ctx}))
 						} else {
 							tc.Out[key] = MarshalResult(graphql.Do(graphql.Params{Schema: w.Schema, RequestString: rq.Query, VariableValues: rq.Vars, Context: ctx}))
